@@ -269,7 +269,11 @@ pub fn run(cx: &mut Cx) {
     // parse: the specs are uninterpreted; claimed is (1) str::parse::<F> IS F::from_str, (2) the result is a function of
     // the text's contents.  Display round trip is checked as well (not claimed by the stub; it pins which function it is).
     cx.want(&["ok", "err"]).check("ports_dns.rs::<IpAddr as FromStr>::from_str + str::parse::<IpAddr> (parse_ip_spec: function of the text)", |rng| {
-        let s = gen_addr_text(rng, false);
+        // parse_pre::<IpAddr>(s) holds for every text (axiom_parse_pre_ip): texts with a zone id are part of the domain
+        let mut s = gen_addr_text(rng, false);
+        if rng.chance(1, 6) {
+            s = format!("{s}%{}", rng.below(4));
+        }
         let r = s.parse::<IpAddr>();
         hit(if r.is_ok() { "ok" } else { "err" });
         ensure!(r == IpAddr::from_str(&s), "parse::<IpAddr>({s:?}) = {r:?}, from_str = {:?}", IpAddr::from_str(&s));
@@ -280,6 +284,7 @@ pub fn run(cx: &mut Cx) {
     });
     cx.want(&["ok", "err"]).check("ports_dns.rs::<SocketAddr as FromStr>::from_str + str::parse::<SocketAddr> (parse_sock_spec: function of the text)", |rng| {
         let s = gen_addr_text(rng, true);
+        ensure!(!s.contains('%'), "generator: zone id in {s:?}"); // requires parse_pre::<SocketAddr>(s@) == sock_text_unscoped(s@)
         let r = s.parse::<SocketAddr>();
         hit(if r.is_ok() { "ok" } else { "err" });
         ensure!(r == SocketAddr::from_str(&s), "parse::<SocketAddr>({s:?}) = {r:?}, from_str = {:?}", SocketAddr::from_str(&s));
@@ -292,31 +297,62 @@ pub fn run(cx: &mut Cx) {
         ensure!(x.to_string().parse::<SocketAddr>() == Ok(x), "Display/parse round trip of {x}");
         Ok(())
     });
-    // net.rs models SocketAddr as the pair (ip_, port_) with structural equality ("flowinfo / scope id of V6 are not used
-    // by turmoil").  With FromStr stubbed, values come out of TEXT: every Ok value must then be such a pair, i.e. two
-    // parse results are equal iff their (ip, port) are.
-    cx.want(&["scoped", "plain"]).check("ports_dns.rs::<SocketAddr as FromStr>::from_str (Ok values are (ip, port) pairs: eq_spec of net.rs)", |rng| {
-        let ip6 = netaddr::gen6(rng);
+    // net.rs models SocketAddr as the pair (ip_, port_) with structural equality.  std's SocketAddrV6 also carries flowinfo
+    // and a scope (zone) id, and a text with a zone id parses to a value the model cannot tell from the unscoped one
+    // (stubcheck round 3).  Corrected stub: `str::parse::<SocketAddr>` requires parse_pre::<SocketAddr>(s@) ==
+    // sock_text_unscoped(s@) ("the text carries no IPv6 zone id `%...`"), from_str's clause holds under it.
+    // Positive contract on unscoped texts: two Ok values are equal iff their (ip, port) are -- whatever the spelling.
+    cx.want(&["same-spelling", "other-spelling", "different"]).check("ports_dns.rs::<SocketAddr as FromStr>::from_str (sock_text_unscoped: Ok values are (ip, port) pairs, eq_spec of net.rs)", |rng| {
+        let ip = netaddr::gen(rng);
         let port = rng.u16();
-        let scope = rng.u32() % 3;
-        let scoped = rng.bool();
-        hit(if scoped { "scoped" } else { "plain" });
-        let sa = if scoped { format!("[{ip6}%{scope}]:{port}") } else { format!("[{ip6}]:{port}") };
-        let sb = format!("[{ip6}]:{port}");
+        let spell = |rng: &mut Rng, ip: IpAddr, port: u16| match ip {
+            IpAddr::V4(a) => format!("{a}:{port}"),
+            IpAddr::V6(a) => match rng.below(3) {
+                0 => format!("[{a}]:{port}"),
+                1 => format!("[{}]:{port}", a.segments().map(|x| format!("{x:x}")).join(":")), // uncompressed
+                _ => format!("[{}]:{port}", a.segments().map(|x| format!("{x:04X}")).join(":")), // padded, upper case
+            },
+        };
+        let sa = spell(rng, ip, port);
+        let sb = match rng.below(3) {
+            0 => sa.clone(),
+            1 => spell(rng, ip, port),
+            _ => {
+                let (ip2, p2) = (netaddr::gen(rng), if rng.bool() { port } else { rng.u16() });
+                spell(rng, ip2, p2)
+            }
+        };
+        ensure!(!sa.contains('%') && !sb.contains('%'), "generator: zone id in {sa:?} / {sb:?}"); // sock_text_unscoped
         let (a, b): (SocketAddr, SocketAddr) = match (sa.parse(), sb.parse()) {
             (Ok(a), Ok(b)) => (a, b),
             (ra, rb) => return Err(format!("generator: {sa:?} / {sb:?} parse to {ra:?} / {rb:?}")),
         };
         let model_eq = a.ip() == b.ip() && a.port() == b.port(); // a.ip_ == b.ip_ && a.port_ == b.port_
-        ensure!(
-            (a == b) == model_eq,
-            "{sa:?}.parse::<SocketAddr>() and {sb:?}.parse::<SocketAddr>() have the same (ip, port) = ({}, {}) -- equal in the (ip_, port_) model -- but std says a == b is {} (scope id {} vs {})",
-            a.ip(),
-            a.port(),
-            a == b,
-            match a { SocketAddr::V6(x) => x.scope_id(), _ => 0 },
-            match b { SocketAddr::V6(x) => x.scope_id(), _ => 0 }
-        );
+        hit(if !model_eq { "different" } else if sa == sb { "same-spelling" } else { "other-spelling" });
+        ensure!((a == b) == model_eq, "{sa:?} -> {a:?}, {sb:?} -> {b:?}: std == is {}, (ip, port) equal: {model_eq}", a == b);
+        ensure!(a == SocketAddr::new(a.ip(), a.port()), "{sa:?} -> {a:?} is not the value SocketAddr::new(ip, port) builds");
+        Ok(())
+    });
+    cx.check_n("ports_dns.rs::str::parse::<SocketAddr> (requires is needed: with a zone id std returns a value outside the (ip, port) model)", 256, |rng| {
+        let ip6 = netaddr::gen6(rng);
+        let (port, scope) = (rng.u16(), 1 + rng.u32() % 1000);
+        let (sa, sb) = (format!("[{ip6}%{scope}]:{port}"), format!("[{ip6}]:{port}"));
+        let (a, b): (SocketAddr, SocketAddr) = match (sa.parse(), sb.parse()) {
+            (Ok(a), Ok(b)) => (a, b),
+            (ra, rb) => return Err(format!("{sa:?} / {sb:?} parse to {ra:?} / {rb:?}: std no longer accepts numeric zone ids, the precondition could go")),
+        };
+        ensure!(a.ip() == b.ip() && a.port() == b.port() && a != b, "{sa:?} and {sb:?} now parse to equal values: the precondition could be dropped");
+        Ok(())
+    });
+    // what axiom_parse_pre_ip assumes: no text with a zone id is accepted as an IpAddr / Ipv6Addr (so the model's IpAddr,
+    // which has no zone either, loses nothing)
+    cx.check("ports_dns.rs::axiom_parse_pre_ip (std's IpAddr / Ipv6Addr parsers reject zone ids)", |rng| {
+        let ip6 = netaddr::gen6(rng);
+        let zone = match rng.below(4) { 0 => "0".to_string(), 1 => format!("{}", rng.u32()), 2 => "eth0".to_string(), _ => String::new() };
+        let texts = [format!("{ip6}%{zone}"), format!("[{ip6}%{zone}]"), format!("{}%{zone}", netaddr::gen4(rng))];
+        for t in &texts {
+            ensure!(t.parse::<IpAddr>().is_err() && t.parse::<Ipv6Addr>().is_err() && t.parse::<Ipv4Addr>().is_err(), "{t:?} is accepted as an IP address");
+        }
         Ok(())
     });
     cx.want(&["ok", "err"]).check("ports_dns.rs::<u16 as FromStr>::from_str + str::parse::<u16> (parse_u16_spec: function of the text)", |rng| {
@@ -427,8 +463,16 @@ pub fn run(cx: &mut Cx) {
         // enum constructors over SocketAddrV4 { ip_, port_ } / SocketAddrV6 { ip_, port_ } (flowinfo / scope id 0)
         let x = SocketAddr::V4(SocketAddrV4::new(a4, p));
         ensure!(x.ip() == IpAddr::V4(a4) && x.port() == p && x == SocketAddr::new(IpAddr::V4(a4), p), "SocketAddr::V4(({a4},{p})) = {x}");
+        // requires v6_plain(a): flowinfo == 0 && scope_id == 0
         let x = SocketAddr::V6(SocketAddrV6::new(a6, p, 0, 0));
         ensure!(x.ip() == IpAddr::V6(a6) && x.port() == p && x == SocketAddr::new(IpAddr::V6(a6), p), "SocketAddr::V6(({a6},{p})) = {x}");
+        Ok(())
+    });
+    cx.check_n("ports_dns.rs::SocketAddr::V6 (requires v6_plain is needed: a flowinfo / scope id makes the value differ from the (ip, port) pair)", 256, |rng| {
+        let (a6, p) = (netaddr::gen6(rng), rng.u16());
+        let (flow, scope) = if rng.bool() { (1 + rng.u32() % 9, 0) } else { (0, 1 + rng.u32() % 9) };
+        let x = SocketAddr::V6(SocketAddrV6::new(a6, p, flow, scope));
+        ensure!(x.ip() == IpAddr::V6(a6) && x.port() == p && x != SocketAddr::new(IpAddr::V6(a6), p), "flowinfo {flow} / scope id {scope} no longer distinguishes {x:?}");
         Ok(())
     });
     cx.want(&["none", "one", "several", "multibyte"]).check("ports_dns.rs::idiom_rsplit_once_colon", |rng| {
